@@ -1194,6 +1194,10 @@ func unmarshalDecimal(info TypeInfo, data []byte, value interface{}) error {
 	case Unmarshaler:
 		return v.UnmarshalCQL(info, data)
 	case *inf.Dec:
+		if len(data) == 0 {
+			*v = inf.Dec{}
+			return nil
+		}
 		if len(data) < 4 {
 			return unmarshalErrorf("inf.Dec needs at least 4 bytes, while value has only %d", len(data))
 		}
@@ -1910,6 +1914,8 @@ func unmarshalUUID(info TypeInfo, data []byte, value interface{}) error {
 			*v = nil
 		case *UUID:
 			*v = UUID{}
+		case *[16]byte:
+			*v = [16]byte{}
 		default:
 			return unmarshalErrorf("can not unmarshal X %s into %T", info, value)
 		}
@@ -1951,6 +1957,10 @@ func unmarshalTimeUUID(info TypeInfo, data []byte, value interface{}) error {
 	case Unmarshaler:
 		return v.UnmarshalCQL(info, data)
 	case *time.Time:
+		if len(data) == 0 {
+			*v = time.Time{}
+			return nil
+		}
 		id, err := UUIDFromBytes(data)
 		if err != nil {
 			return err
@@ -2001,6 +2011,10 @@ func unmarshalInet(info TypeInfo, data []byte, value interface{}) error {
 	case Unmarshaler:
 		return v.UnmarshalCQL(info, data)
 	case *net.IP:
+		if len(data) == 0 {
+			*v = nil
+			return nil
+		}
 		if x := len(data); !(x == 4 || x == 16) {
 			return unmarshalErrorf("cannot unmarshal %s into %T: invalid sized IP: got %d bytes not 4 or 16", info, value, x)
 		}
